@@ -77,19 +77,19 @@ func consumeSegmentTable() []taggedSpec {
 	diff := "seqnum.Value.Size($2, $0.rcvNxt)"
 	fin := "(*tcp.segment).flagIsSet($1, 1)"
 	return []taggedSpec{
-		{"C01 C04", SiteSpec{Kind: "call", Target: "seqnum.Value.InWindow", Args: []string{"$0.rcvNxt", "$2", "$3"}, Guards: []string{"(0 < $3)"}, Exact: true, N: 1,
+		{"C01 C04", SiteSpec{Kind: "call", Target: "seqnum.Value.InWindow", Args: []string{"$0.rcvNxt", "$2", "$3"}, Guards: []string{"!($3 == 0)"}, Exact: true, N: 1,
 			Why: "data is consumable only if the segment [segSeq, segSeq+segLen) contains the next expected byte rcvNxt"}},
-		{"C01", SiteSpec{Kind: "return", Target: "", Args: []string{"false"}, Guards: []string{"!" + inw, "(0 < $3)"}, Exact: true, N: 1, Why: "otherwise a gap remains: not consumed"}},
-		{"C01", SiteSpec{Kind: "call", Target: "seqnum.Value.LessThan", Args: []string{"$2", "$0.rcvNxt"}, Guards: []string{"(0 < $3)", inw}, Exact: true, N: 1, Why: "already-received prefix detected in sequence space"}},
-		{"C01", SiteSpec{Kind: "call", Target: "(*buffer.VectorisedView).TrimFront", Args: []string{"&$1.data", diff}, Guards: []string{"(0 < $3)", inw, lt}, Exact: true, N: 1,
+		{"C01", SiteSpec{Kind: "return", Target: "", Args: []string{"false"}, Guards: []string{"!" + inw, "!($3 == 0)"}, Exact: true, N: 1, Why: "otherwise a gap remains: not consumed"}},
+		{"C01", SiteSpec{Kind: "call", Target: "seqnum.Value.LessThan", Args: []string{"$2", "$0.rcvNxt"}, Guards: []string{"!($3 == 0)", inw}, Exact: true, N: 1, Why: "already-received prefix detected in sequence space"}},
+		{"C01", SiteSpec{Kind: "call", Target: "(*buffer.VectorisedView).TrimFront", Args: []string{"&$1.data", diff}, Guards: []string{"!($3 == 0)", inw, lt}, Exact: true, N: 1,
 			Why: "exactly rcvNxt-segSeq already-delivered bytes are dropped from the front"}},
-		{"C01", SiteSpec{Kind: "call", Target: "(*seqnum.Value).UpdateForward", Args: []string{"&$1.sequenceNumber", diff}, Guards: []string{"(0 < $3)", inw, lt}, Exact: true, N: 1,
+		{"C01", SiteSpec{Kind: "call", Target: "(*seqnum.Value).UpdateForward", Args: []string{"&$1.sequenceNumber", diff}, Guards: []string{"!($3 == 0)", inw, lt}, Exact: true, N: 1,
 			Why: "... and the segment's sequence number advances with its data"}},
-		{"C01", SiteSpec{Kind: "call", Target: "(*seqnum.Value).UpdateForward", Args: []string{"&new(seqnum.Value)", diff}, Guards: []string{"(0 < $3)", inw, lt}, Exact: true, N: 1,
+		{"C01", SiteSpec{Kind: "call", Target: "(*seqnum.Value).UpdateForward", Args: []string{"&new(seqnum.Value)", diff}, Guards: []string{"!($3 == 0)", inw, lt}, Exact: true, N: 1,
 			Why: "... and so does the local segSeq from which rcvNxt is computed"}},
-		{"C01 C04", SiteSpec{Kind: "call", Target: "(*tcp.endpoint).readyToRead", Args: []string{"$0.ep", "$1"}, Guards: []string{"(0 < $3)", inw}, Exact: true, N: 1,
+		{"C01 C04", SiteSpec{Kind: "call", Target: "(*tcp.endpoint).readyToRead", Args: []string{"$0.ep", "$1"}, Guards: []string{"!($3 == 0)", inw}, Exact: true, N: 1,
 			Why: "data is handed to the reader exactly when it contains rcvNxt (in order, inside the window), after trimming"}},
-		{"C01", SiteSpec{Kind: "return", Target: "", Args: []string{"false"}, Guards: []string{"!($0.rcvNxt == $2)", "!(0 < $3)"}, Exact: true, N: 1, Why: "an empty segment (FIN) is consumable only exactly at rcvNxt"}},
+		{"C01", SiteSpec{Kind: "return", Target: "", Args: []string{"false"}, Guards: []string{"!($0.rcvNxt == $2)", "($3 == 0)"}, Exact: true, N: 1, Why: "an empty segment (FIN) is consumable only exactly at rcvNxt"}},
 		{"C01", SiteSpec{Kind: "store", Target: "tcp.receiver.rcvNxt", Args: []string{"$0", "seqnum.Value.Add(new(seqnum.Value)@u, phi{$3 | phi{$3 | ($3 - " + diff + ")}})"}, Guards: []string{}, Exact: true, N: 1,
 			Why: "rcvNxt = (trimmed) segSeq + (trimmed) segLen: advances by exactly the bytes handed to the reader"}},
 		{"C01 C02", SiteSpec{Kind: "store", Target: "tcp.receiver.rcvNxt", Args: []string{"$0", "($0.rcvNxt@1 + 1)"}, Guards: []string{fin}, Exact: true, N: 1, Why: "a FIN consumes one sequence number"}},
@@ -115,9 +115,9 @@ func rcvHandleSegmentTable() []taggedSpec {
 		{"C01", SiteSpec{Kind: "call", Target: "container/heap.Push", Args: []string{"&$0.pendingRcvdSegments", s}, Guards: []string{"!$0.closed", "!" + cons, "($0.pendingBufUsed < $0.pendingBufSize)", acc}, N: 1,
 			Why: "an acceptable but not yet consumable segment is parked in the sequence-ordered heap (if the out-of-order budget allows)"}},
 		{"C01", SiteSpec{Kind: "call", Target: "(*tcp.receiver).consumeSegment", Args: []string{"$0", p0, p0 + ".sequenceNumber", "buffer.VectorisedView.Size(" + p0 + ".data)"}, N: 1,
-			Guards: []string{"!$0.closed", acc, cons, "(0 < tcp.segmentHeap.Len($0.pendingRcvdSegments))", "!seqnum.Value.LessThan(seqnum.Value.Add(" + p0 + ".sequenceNumber, (buffer.VectorisedView.Size(" + p0 + ".data) - 1)), $0.rcvNxt)"},
+			Guards: []string{"!$0.closed", acc, cons, "!(tcp.segmentHeap.Len($0.pendingRcvdSegments) < 1)", "!seqnum.Value.LessThan(seqnum.Value.Add(" + p0 + ".sequenceNumber, (buffer.VectorisedView.Size(" + p0 + ".data) - 1)), $0.rcvNxt)"},
 			Why:    "after the gap closed, each parked segment (heap minimum) is consumed with ITS OWN sequence number and ITS OWN length; wholly acknowledged ones are skipped"}},
-		{"C01", SiteSpec{Kind: "call", Target: "container/heap.Pop", Args: []string{"&$0.pendingRcvdSegments"}, Guards: []string{"!$0.closed", acc, cons, "(0 < tcp.segmentHeap.Len($0.pendingRcvdSegments))"}, Exact: true, N: 1,
+		{"C01", SiteSpec{Kind: "call", Target: "container/heap.Pop", Args: []string{"&$0.pendingRcvdSegments"}, Guards: []string{"!$0.closed", acc, cons, "!(tcp.segmentHeap.Len($0.pendingRcvdSegments) < 1)"}, Exact: true, N: 1,
 			Why: "a parked segment leaves the heap only inside the drain loop (consumed or already acknowledged)"}},
 		{"C01 C05", SiteSpec{Kind: "call", Target: "(*tcp.sender).sendAck", Args: []string{"$0.ep.snd"}, Guards: []string{"!$0.closed", "!" + acc}, Exact: true, N: 1, Why: "an unacceptable segment only triggers an ACK (RFC 793 p.37)"}},
 		{"C01 C05", SiteSpec{Kind: "call", Target: "(*tcp.sender).sendAck", Args: []string{"$0.ep.snd"}, Guards: []string{"!$0.closed", "!" + cons, acc}, N: 1, Why: "an out-of-order segment triggers an immediate (duplicate) ACK so the peer can fast-retransmit"}},
